@@ -14,8 +14,11 @@ import langpipe
 import printer
 import vlib
 
+SHADOW = {"Template": '"f"', "Lits": "{1}", "Ops": '{"+"}', "Helpers": "{}", "Prods": '{"let", "letsh", "asg", "now", "if"}'}
 JOBS = {
     "quick": [
+        # lets that bind a name of an enclosing scope again (lexical scope of nested blocks)
+        ("shadow5", dict(SHADOW, Budget=5)),
         ("f4", {"Template": '"f"', "Budget": 4}),
         ("dsp4in", {"Template": '"dsp"', "UseInput": "TRUE", "Budget": 4}),
         # stateful constructs inside if arms (every arm owns its cells)
@@ -24,6 +27,7 @@ JOBS = {
                       "Prods": '{"now", "if", "mem", "delay", "ifp", "proj", "tup"}'}),
     ],
     "thorough": [
+        ("shadow6", dict(SHADOW, Budget=6)),
         ("ifstate6", {"Template": '"f"', "Budget": 6, "Lits": "{1}", "Ops": '{"+"}',
                       "Helpers": '{"counter", "lag", "pacc", "dl", "nest"}',
                       "Prods": '{"now", "if", "mem", "delay", "ifp", "proj", "tup"}'}),
